@@ -110,3 +110,25 @@ func Exhaustive(rows, cols int, pname string, pre, alpha []Step, depth int, emit
 		}
 	}
 }
+
+// AltResizes emits, for a rows x cols start screen whose primary screen is
+// full (cursor on the last row, saved by the switch) and whose alternate
+// screen is active, every sequence of exactly depth resizes over the sizes up
+// to maxR x maxC, followed by the return to the primary screen, a restore
+// cursor and some output. The saved cursor of the primary screen lies at or
+// below the new height in most of them.
+func AltResizes(rows, cols, maxR, maxC, depth int, emit func(*Scn)) {
+	var alpha []Step
+	for r := 1; r <= maxR; r++ {
+		for c := 1; c <= maxC; c++ {
+			alpha = append(alpha, R(c, r))
+		}
+	}
+	pre := ExPrefixes(rows, cols)["alt"]
+	tail := []Step{W("y"), W("\x1b[?1049l"), W("\x1b8"), W("x\n")}
+	Exhaustive(rows, cols, "alt", pre, alpha, depth, func(sc *Scn) {
+		sc.Kind = fmt.Sprintf("exr%d-alt", depth)
+		sc.Steps = append(sc.Steps, tail...)
+		emit(sc)
+	})
+}
